@@ -402,3 +402,141 @@ Section ExamplesRebuilt.
     end.
   Proof. vm_compute. repeat split; reflexivity. Qed.
 End ExamplesRebuilt.
+
+(* ================= (3c) struct-mapped model: inline equivalence in an arbitrary context ================= *)
+(* The analogue of C14_inline_equiv_* for Schema/XOps.v (struct-mapped objects, NewStructMappedObjectSchema /
+   typed scopes).  `xinlines_to e s s'` (Proofs/XInlineStep.v): s' is s with any number of self-namespace references
+   replaced by the objects they denote (themselves inlined further), closed under EVERY x-constructor: lists, maps,
+   objects — struct-mapped or not, the struct information kept — and their properties, one-of members, scopes (whose
+   objects are inlined in the table the scope is entered with: `xinl_env e e'`, same oracles, same struct table; a
+   table entry that is replaced is not itself a bare reference).  Fuel relation = that of the map-based theorem: the
+   inlined schema at the SAME fuel, the original at TWICE the fuel.  What the struct-mapped path adds, all covered:
+   the sub-object default pass of a struct-mapped parent (C14_struct_subdefaults_inline: invariant at the same fuel,
+   at every depth and in the inlined environment — the full form of C14_struct_subdefaults_pass_inline_partial), the
+   reflected types used by validateStruct / serializeStruct / findUnderlyingType, xto_struct. *)
+From Verif Require Import Proofs.XStruct Proofs.XExamples Proofs.XMono Proofs.XInlineStep Proofs.XInlineEquiv Proofs.XInlineEx.
+
+Theorem C14_struct_inline_equiv_unser : forall words pu e e' s s', xinl_env e e' -> xinlines_to e s s' ->
+  forall f v r, r <> OutOfFuel ->
+    (xunser words pu f e s v = r -> xunser words pu f e' s' v = r) /\
+    (xunser words pu f e' s' v = r -> xunser words pu (2 * f) e s v = r).
+Proof. exact xinline_equiv_unser. Qed.
+Print Assumptions C14_struct_inline_equiv_unser.
+
+Theorem C14_struct_inline_equiv_validate : forall words pu e e' s s', xinl_env e e' -> xinlines_to e s s' ->
+  forall f v r, r <> OutOfFuel ->
+    (xvalidate words pu f e s v = r -> xvalidate words pu f e' s' v = r) /\
+    (xvalidate words pu f e' s' v = r -> xvalidate words pu (2 * f) e s v = r).
+Proof. exact xinline_equiv_validate. Qed.
+Print Assumptions C14_struct_inline_equiv_validate.
+
+Theorem C14_struct_inline_equiv_serialize : forall words pu e e' s s', xinl_env e e' -> xinlines_to e s s' ->
+  forall f v r, r <> OutOfFuel ->
+    (xserialize words pu f e s v = r -> xserialize words pu f e' s' v = r) /\
+    (xserialize words pu f e' s' v = r -> xserialize words pu (2 * f) e s v = r).
+Proof. exact xinline_equiv_serialize. Qed.
+Print Assumptions C14_struct_inline_equiv_serialize.
+
+(* data-mode ValidateCompatibility as well (the one-of of Validate / Serialize goes through it) *)
+Theorem C14_struct_inline_equiv_compat : forall words pu e e' s s', xinl_env e e' -> xinlines_to e s s' ->
+  forall f v r, r <> OutOfFuel ->
+    (xcompat words pu f e s v = r -> xcompat words pu f e' s' v = r) /\
+    (xcompat words pu f e' s' v = r -> xcompat words pu (2 * f) e s v = r).
+Proof. exact xinline_equiv_compat. Qed.
+Print Assumptions C14_struct_inline_equiv_compat.
+
+(* every environment is related to itself and every schema inlines to itself (so e' = e, or s' = s, are instances);
+   s7b's one-level relation xprop_inl is an instance of the property rule of xinlines_to *)
+Theorem C14_struct_inl_env_refl : forall e, xinl_env e e.
+Proof. exact xinl_env_refl. Qed.
+Print Assumptions C14_struct_inl_env_refl.
+
+Theorem C14_struct_inl_refl : forall s e, xinlines_to e s s.
+Proof. exact xinl_refl. Qed.
+Print Assumptions C14_struct_inl_refl.
+
+Theorem C14_struct_prop_inl_instance : forall e (np np' : string * property_ xschema),
+  fst np = fst np' -> xprop_inl e (snd np) (snd np') -> xprop_rel (xinlines_to e) np np'.
+Proof. exact xprop_inl_rel. Qed.
+Print Assumptions C14_struct_prop_inl_instance.
+
+(* the sub-object default pass: the same raw map at the SAME fuel, whatever the depth at which references were
+   replaced and with the member's own environment inlined *)
+Theorem C14_struct_subdefaults_inline : forall f e e' pid (p : xproperty) t' r,
+  xinl_env e e' -> xinlines_to e (p_type p) t' ->
+  xsub_defaults f e pid p r = xsub_defaults f e' pid (xwith_type p t') r.
+Proof. exact xsub_inl_eq. Qed.
+Print Assumptions C14_struct_subdefaults_inline.
+
+(* fuel monotonicity of the struct-mapped operations (used by both directions) *)
+Theorem C14_struct_fuel_mono : forall words pu f f' e s v r, (f <= f')%nat ->
+  xunser words pu f e s v = r -> r <> OutOfFuel -> xunser words pu f' e s v = r.
+Proof. exact xunser_fuel_mono. Qed.
+Print Assumptions C14_struct_fuel_mono.
+
+(* the hypotheses hold for the harness descriptors: XNested{in: ref XInner, p: ref XInner, x} with both references
+   replaced by the struct-mapped XInner, as an object and inside the scope's table; the results are equal and Ok *)
+Example C14_struct_inline_example :
+  let e := xs_env xs_tab in
+  let v := xs_m [("in", xs_m [("b", vstr "q")]); ("x", vi64 3)] in
+  let n := VStruct (TStruct "XNested")
+             [("In", xs_inner_v 1 "q"); ("P", VPtr (TPtr (TStruct "XInner")) (Some (xs_inner_v 1 ""))); ("X", vi64 3)] in
+  xinl_env e e /\ xinlines_to e xs_nested xs_nested_inl /\
+  xunser w_words w_pu 8 e xs_nested v = Ok n /\ xunser w_words w_pu 8 e xs_nested_inl v = Ok n /\
+  xvalidate w_words w_pu 8 e xs_nested n = Ok tt /\ xvalidate w_words w_pu 8 e xs_nested_inl n = Ok tt /\
+  xserialize w_words w_pu 8 e xs_nested n = xserialize w_words w_pu 8 e xs_nested_inl n /\
+  is_ok (xserialize w_words w_pu 8 e xs_nested_inl n) = true.
+Proof. exact xinline_equiv_example. Qed.
+
+Example C14_struct_inline_scope_example :
+  let e := xs_env [] in
+  let v := xs_m [("in", xs_m [("b", vstr "q")]); ("x", vi64 3)] in
+  xinl_env e e /\ xinlines_to e (xs_scope "XNested") (XScope xs_tab_inl "XNested") /\
+  is_ok (xunser w_words w_pu 30 e (xs_scope "XNested") v) = true /\
+  xunser w_words w_pu 30 e (xs_scope "XNested") v = xunser w_words w_pu 30 e (XScope xs_tab_inl "XNested") v.
+Proof. exact xinline_equiv_scope_example. Qed.
+
+(* the mechanical inliner over xschema (Proofs/XInlineRefs.v: the struct-mapped counterpart of inline_refs — every
+   self-namespace reference to an OBJECT replaced by it, n rounds deep, with a stop list) produces an inlining, without
+   any side condition; so the scope and its inlined partner agree on every input in the SAME environment at the same
+   fuel — the very pair the harness family c14xinline compares — and back at twice the fuel *)
+From Verif Require Import Proofs.XInlineRefs.
+
+Theorem C14_struct_inline_refs_inlines : forall n e stop s, xinlines_to e s (xinline_refs n (xe_self e) stop s).
+Proof. exact xinline_refs_inlines. Qed.
+Print Assumptions C14_struct_inline_refs_inlines.
+
+Theorem C14_struct_inline_refs_equiv : forall words pu e s n stop f v,
+    (forall r, xunser words pu f e s v = r -> r <> OutOfFuel ->
+               xunser words pu f e (xinline_refs n (xe_self e) stop s) v = r) /\
+    (forall r, xvalidate words pu f e s v = r -> r <> OutOfFuel ->
+               xvalidate words pu f e (xinline_refs n (xe_self e) stop s) v = r) /\
+    (forall r, xserialize words pu f e s v = r -> r <> OutOfFuel ->
+               xserialize words pu f e (xinline_refs n (xe_self e) stop s) v = r).
+Proof. exact xinline_refs_equiv. Qed.
+Print Assumptions C14_struct_inline_refs_equiv.
+
+Theorem C14_struct_inline_refs_equiv_back : forall words pu e s n stop f v,
+    (forall r, xunser words pu f e (xinline_refs n (xe_self e) stop s) v = r -> r <> OutOfFuel ->
+               xunser words pu (2 * f) e s v = r) /\
+    (forall r, xvalidate words pu f e (xinline_refs n (xe_self e) stop s) v = r -> r <> OutOfFuel ->
+               xvalidate words pu (2 * f) e s v = r) /\
+    (forall r, xserialize words pu f e (xinline_refs n (xe_self e) stop s) v = r -> r <> OutOfFuel ->
+               xserialize words pu (2 * f) e s v = r).
+Proof. exact xinline_refs_equiv_back. Qed.
+Print Assumptions C14_struct_inline_refs_equiv_back.
+
+(* the inliner does change the harness scope (XNested's member references become the struct-mapped XInner, the one-of
+   members and the list item of Choice their objects), and both forms return the same struct *)
+Example C14_struct_inline_refs_example :
+  let e := xs_env [] in
+  let v := xs_m [("in", xs_m [("b", vstr "q")]); ("x", vi64 3)] in
+  let s' := xinline_refs 4 (xe_self e) [] (xs_scope "XNested") in
+  match s' with
+  | XScope ((_, XObject _ _ ((_, p) :: _) (Some _)) :: _) _ =>
+      match p_type p with XObject "XInner" _ _ (Some _) => True | _ => False end
+  | _ => False
+  end /\
+  is_ok (xunser w_words w_pu 30 e (xs_scope "XNested") v) = true /\
+  xunser w_words w_pu 30 e s' v = xunser w_words w_pu 30 e (xs_scope "XNested") v.
+Proof. vm_compute. repeat split; reflexivity. Qed.
